@@ -20,7 +20,7 @@ case "$CMD" in
     git -C "$W/repo" checkout -q -- . ; git -C "$W/repo" clean -fdq -e target
     mkdir -p "$W/verif"
     rsync -a --delete --exclude .git --exclude target --exclude replays --exclude seeded --exclude evidence /verif/ "$W/verif/"
-    for f in sim/csim/Cargo.toml sim/miri_c04/Cargo.toml sim/miri_c18/Cargo.toml; do
+    for f in sim/csim/Cargo.toml sim/miri_c04/Cargo.toml sim/miri_c18/Cargo.toml sim/miri_mt/Cargo.toml; do
       sed -i "s#path = \"/repo\"#path = \"$W/repo\"#" "$W/verif/$f"
     done
     if [ ! -f "$W/verif/sim/alearef/target/alea_ref.txt" ]; then
